@@ -44,6 +44,9 @@ pub struct PuppetSpec {
     /// makes the (listenable) puppet emit its next script item from inside `f` - a subject that is
     /// fed, completed or failed by the very callback that consumes it
     pub feedback: Option<usize>,
+    /// a source that reacts to its first Pull (merge members only): inside that call the late
+    /// sibling j greets - two members backed by one lazily opened connection
+    pub on_pull: Option<usize>,
 }
 
 #[derive(Debug)]
@@ -90,6 +93,8 @@ pub struct Puppet<T> {
     pub subs: Mutex<Vec<Arc<Sub<T>>>>,
     /// run (once per subscription) from inside the handler of a downstream Terminate / Error
     pub stop_hook: Mutex<Option<Arc<dyn Fn() + Send + Sync>>>,
+    /// run from inside the handler of the first Pull of every subscription
+    pub pull_hook: Mutex<Option<Arc<dyn Fn() + Send + Sync>>>,
 }
 
 impl<T: Clone + Send + Sync + 'static> Puppet<T> {
@@ -109,6 +114,7 @@ impl<T: Clone + Send + Sync + 'static> Puppet<T> {
             world: Arc::clone(world),
             subs: Mutex::new(vec![]),
             stop_hook: Mutex::new(None),
+            pull_hook: Mutex::new(None),
         })
     }
 
@@ -197,11 +203,17 @@ impl<T: Clone + Send + Sync + 'static> Puppet<T> {
         match message {
             Message::Pull => {
                 let _f = self.world.enter(sub.edge, Dir::Up, Kind::Pull, Val::none(), -1);
-                let live = {
+                let (live, first) = {
                     let mut st = sub.st.lock().unwrap();
                     st.pulls += 1;
-                    !st.ended && !st.stopped
+                    (!st.ended && !st.stopped, st.pulls == 1)
                 };
+                if first && live {
+                    let h = self.pull_hook.lock().unwrap().clone();
+                    if let Some(h) = h {
+                        h();
+                    }
+                }
                 if live {
                     match self.spec.mode {
                         Mode::Listen => {},
@@ -403,6 +415,8 @@ pub trait PuppetCtl: Send + Sync {
     fn on_stop(&self) -> Option<(u8, usize)>;
     fn clone_ctl(&self) -> Box<dyn PuppetCtl>;
     fn set_stop_hook(&self, h: Arc<dyn Fn() + Send + Sync>);
+    fn on_pull(&self) -> Option<usize>;
+    fn set_pull_hook(&self, h: Arc<dyn Fn() + Send + Sync>);
     fn greet_all(&self);
     fn emit_all(&self);
 }
@@ -453,6 +467,7 @@ impl<T: Clone + Send + Sync + 'static> PuppetCtl for Arc<Puppet<T>> {
     fn teardown(&self) {
         self.subs.lock().unwrap().clear();
         *self.stop_hook.lock().unwrap() = None;
+        *self.pull_hook.lock().unwrap() = None;
     }
     fn on_stop(&self) -> Option<(u8, usize)> {
         self.spec.on_stop
@@ -462,6 +477,12 @@ impl<T: Clone + Send + Sync + 'static> PuppetCtl for Arc<Puppet<T>> {
     }
     fn set_stop_hook(&self, h: Arc<dyn Fn() + Send + Sync>) {
         *self.stop_hook.lock().unwrap() = Some(h);
+    }
+    fn on_pull(&self) -> Option<usize> {
+        self.spec.on_pull
+    }
+    fn set_pull_hook(&self, h: Arc<dyn Fn() + Send + Sync>) {
+        *self.pull_hook.lock().unwrap() = Some(h);
     }
     fn greet_all(&self) {
         Puppet::greet_all(self)
